@@ -538,3 +538,70 @@ func ruleR17_8(w *World, r *Report) {
 	}
 	r.Check(okAfter && okUpsert, "GetNextCollectionNum/number after the increment", u.Pos(fau.Pos()), "upsert, $inc, ReturnDocument(After)", fmt.Sprintf("the generator returns the counter document as it was BEFORE the increment (upsert=%v, ReturnDocument(After)=%v): the first call finds none and answers 1, the second finds {num:1} and answers 1 again", okUpsert, okAfter))
 }
+
+// R09.6 the rollback point of a subscriber names the subscribed datatype
+func ruleR09_6(w *World, r *Report) {
+	u := w.Client()
+	r.Rule("R09.6", "when a subscription response is applied, the rollback point (ResetTransaction) is captured after the replica has taken the datatype's id and its fresh operation id, and before the received operations are applied: a later rollback restores the meta of that point, and a point taken earlier would give the replica back the identifiers it had before it subscribed", 1)
+	fn := u.Fn(pDatatypes, "WiredDatatype", "ApplyPushPullPack")
+	if fn == nil {
+		r.Lost("WiredDatatype.ApplyPushPullPack")
+		return
+	}
+	d := deepOfDepth(fn, 2)
+	var idents, resets, recvs []dins
+	d.each(func(x dins) {
+		switch in := x.in.(type) {
+		case *ssa.Store:
+			if o, f, _, ok := storeField(in.Addr); ok && o == "BaseDatatype" && f == "id" {
+				idents = append(idents, x)
+			}
+		case *ssa.Call:
+			switch calleeName(in) {
+			case "SetOpID":
+				idents = append(idents, x)
+			case "ResetTransaction":
+				resets = append(resets, x)
+			case "ReceiveRemoteModelOperations":
+				recvs = append(recvs, x)
+			}
+		}
+	})
+	if len(idents) == 0 || len(resets) == 0 || len(recvs) == 0 {
+		r.Lost(fmt.Sprintf("ApplyPushPullPack: identifier updates (%d), ResetTransaction (%d), ReceiveRemoteModelOperations (%d)", len(idents), len(resets), len(recvs)))
+		return
+	}
+	good := false
+	var at dins
+	for _, rt := range resets {
+		paths, okp := d.paths(rt, nil)
+		ok := okp && len(paths) > 0
+		for _, p := range paths {
+			pos := false
+			for _, l := range p.strs {
+				if strings.HasPrefix(l, "HasSubscribeBit(") {
+					pos = true
+				}
+			}
+			ok = ok && pos
+		}
+		for _, s := range idents {
+			if !d.reachable(s, rt) || d.reachable(rt, s) {
+				ok = false
+			}
+		}
+		for _, rc := range recvs {
+			if !d.reachable(rt, rc) || d.reachable(rc, rt) {
+				ok = false
+			}
+		}
+		if ok {
+			good, at = true, rt
+		}
+	}
+	pos := d.pos(u, resets[0])
+	if good {
+		pos = d.pos(u, at)
+	}
+	r.Check(good, "ApplyPushPullPack/rollback point after the subscribed identifiers", pos, "id and opID updated -> ResetTransaction -> received operations applied", "every rollback point of a subscription response is captured before the replica takes the datatype's id and its new operation id: the first failed transaction afterwards restores the pre-subscription DUID (and clock), and every later sync names a datatype the server does not know")
+}
